@@ -452,20 +452,16 @@ class DeterministicFiniteAutomaton(NondeterministicFiniteAutomaton):
                     (not self_minimal.is_final_state(current_self)
                      and other_minimal.is_final_state(current_other)):
                 return False
-            next_self = self_minimal(current_self)
-            next_other = other_minimal(current_other)
+            # The transitions are matched by symbol (the symbols may not be
+            # comparable with each other, so they are not sorted)
+            next_self = dict(self_minimal(current_self))
+            next_other = dict(other_minimal(current_other))
             if len(next_self) != len(next_other):
                 return False
-            if len(next_self) == 0:
-                continue
-            for next_temp, other_temp in zip(sorted(list(next_self),
-                                                    key=lambda x: x[0].value),
-                                             sorted(list(next_other),
-                                                    key=lambda x: x[0].value)):
-                next_symbol_self, next_state_self = next_temp
-                next_symbol_other, next_state_other = other_temp
-                if next_symbol_other != next_symbol_self:
+            for next_symbol, next_state_self in next_self.items():
+                if next_symbol not in next_other:
                     return False
+                next_state_other = next_other[next_symbol]
                 if next_state_self in matches:
                     if matches[next_state_self] != next_state_other:
                         return False
